@@ -8,6 +8,8 @@ the floating type involved, input bit-unchanged.
 
 from __future__ import annotations
 
+import warnings
+
 import numpy as np
 
 from vf import instrument, workloads as wl
@@ -150,7 +152,47 @@ def generate(ck):
             }
         )
         k += 1
+    # "every correlation that accepts an array of pressures": the oil and water modules are searched at run
+    # time for public functions with a `pressure` argument that answer an array with an array; those not in
+    # the list above get the cases of a listed function of their module, under their own name
+    for name in _discover():
+        like = "b_o_Standing" if name.startswith("found:oil.") else "density_water_McCain"
+        descs += [dict(d, fn=name, long=None, threads=None) for d in descs if d["fn"] == like]
     return descs
+
+
+_KNOWN_PARAMS = ("temperature", "api_gravity", "gas_specific_gravity", "solution_gor_initial", "salinity")
+_FOUND = None
+
+
+def _discover():
+    """Public oil / water correlations, not listed in FUNCS, that accept an array of pressures in the tree under test."""
+    global _FOUND
+    if _FOUND is not None:
+        return _FOUND
+    import inspect
+
+    from bluebonnet.fluids import oil, water
+
+    found = []
+    probe = {"temperature": 200.0, "api_gravity": 35.0, "gas_specific_gravity": 0.7, "solution_gor_initial": 600.0, "salinity": 3.0}
+    for mod, tag in ((oil, "oil"), (water, "water")):
+        for name, f in inspect.getmembers(mod, inspect.isfunction):
+            if f.__module__ != mod.__name__ or name.startswith("_") or name in FUNCS:
+                continue
+            ps = inspect.signature(f).parameters
+            if "pressure" not in ps or any(k not in probe and k != "pressure" and v.default is inspect.Parameter.empty for k, v in ps.items()):
+                continue
+            try:
+                with np.errstate(all="ignore"), warnings.catch_warnings():
+                    warnings.simplefilter("ignore")
+                    o = np.asarray(f(pressure=np.array([1000.0, 2000.0, 5000.0]), **{k: probe[k] for k in ps if k in probe}))
+            except Exception:  # noqa: BLE001  (does not accept arrays: outside the property)
+                continue
+            if o.shape == (3,):
+                found.append(f"found:{tag}.{name}")
+    _FOUND = found
+    return found
 
 
 def _array(desc):
@@ -213,6 +255,16 @@ def _callables(desc):
             call = lambda x: g(*[x if i == k else a for i, a in enumerate(args)])  # noqa: E731
         return call, (lambda x: g(*[x if i == k else plain(a) for i, a in enumerate(args)]))
 
+    if fn.startswith("found:"):
+        import inspect
+
+        g = getattr(oil if fn.startswith("found:oil.") else water, fn.split(".", 1)[1])
+        by_name = {"temperature": T if fn.startswith("found:oil.") else Tw, "api_gravity": api, "gas_specific_gravity": gg, "solution_gor_initial": gor, "salinity": sal}
+        names = [n for n in inspect.signature(g).parameters if n == "pressure" or n in by_name]
+        args = [None if n == "pressure" else by_name[n] for n in names]
+        if desc.get("kw") or names != list(inspect.signature(g).parameters)[: len(names)]:
+            return (lambda x: g(**{n: (x if a is None else a) for n, a in zip(names, args)})), (lambda x: g(**{n: (x if a is None else plain(a)) for n, a in zip(names, args)}))
+        return both(g, *args)
     if fn in ("b_o_Standing", "solution_gor_Standing", "oil_compressibility_undersat_Spivey"):
         return both(getattr(oil, fn), T, None, api, gg, gor)
     if fn in ("b_water_McCain", "b_water_McCain_dp"):
